@@ -21,15 +21,15 @@ struct Traits<double> {
 HIST_INSTANTIATE(double)
 
 #if VERIF_PART == -1 || VERIF_PART == 0
-static unsigned long long g_execs = 0, g_steps = 0, g_nt09 = 0, g_nt10 = 0, g_nt14 = 0, g_moves = 0, g_throws = 0;
+static unsigned long long g_execs = 0, g_steps = 0, g_nt09 = 0, g_nt10 = 0, g_nt14 = 0, g_nt08 = 0, g_moves = 0, g_throws = 0;
 static unsigned long long g_opcount[hist::CODE_COUNT];
 static void dump_counters() {
   const char *p = getenv("HIST_COUNTERS");
   if (!p) return;
   FILE *f = fopen(p, "w");
   if (!f) return;
-  fprintf(f, "{\"execs\": %llu, \"steps\": %llu, \"nontrivial_c09\": %llu, \"nontrivial_c10\": %llu, \"nontrivial_c14\": %llu, \"with_moves\": %llu, \"with_throws\": %llu, \"ops\": {",
-          g_execs, g_steps, g_nt09, g_nt10, g_nt14, g_moves, g_throws);
+  fprintf(f, "{\"execs\": %llu, \"steps\": %llu, \"nontrivial_c09\": %llu, \"nontrivial_c10\": %llu, \"nontrivial_c14\": %llu, \"nontrivial_c08\": %llu, \"with_moves\": %llu, \"with_throws\": %llu, \"ops\": {",
+          g_execs, g_steps, g_nt09, g_nt10, g_nt14, g_nt08, g_moves, g_throws);
   for (int i = 0; i < hist::CODE_COUNT; i++) fprintf(f, "%s\"%s\": %llu", i ? ", " : "", hist::code_name(i), g_opcount[i]);
   fprintf(f, "}}\n");
   fclose(f);
@@ -60,6 +60,7 @@ extern "C" int LLVMFuzzerTestOneInput(const uint8_t *data, size_t size) {
   if (in.nt_c09) g_nt09++;
   if (in.nt_c10) g_nt10++;
   if (in.nt_c14) g_nt14++;
+  if (in.nt_c08) g_nt08++;
   if (in.moves_seen) g_moves++;
   if (in.throws_seen) g_throws++;
   if (in.failed) {
